@@ -43,13 +43,18 @@ def frequency_test(ctx, n):
             else:
                 _, idx = B.bootstrap_sample_pattern(src, by)
             for v in idx:
+                if int(v) not in counts:
+                    ctx.violation(f'C09/a/returned-index-not-a-group/{kind}/{by}',
+                                  f'bootstrap returned index {v!r}, which is not a value of descriptor {by} {groups}',
+                                  {'returned': [int(x) for x in idx], 'groups': groups, 'by': by})
+                    counts[int(v)] = 0
                 counts[int(v)] += 1
         g = len(groups)
         tot = n * g
         mean, sd = tot / g, (tot * (1 / g) * (1 - 1 / g)) ** 0.5
         ctx.count(n)
         for v, c in counts.items():
-            if abs(c - mean) > 6 * sd:
+            if v in groups and abs(c - mean) > 6 * sd:
                 ctx.violation(f'C09/f/uniform/{kind}/{by}',
                               f'group {v} drawn {c} times in {tot} draws, expected {mean:.0f} +- {6 * sd:.0f}',
                               {'counts': counts, 'n': n, 'by': by})
